@@ -204,6 +204,30 @@ def c17_case(seed, model, rep):
         if bad:
             rep.oracle_fail({"kind": "APIs fail after the original bytes were restored", "case": case, "failed": bad})
             return
+        # `config generate` again over a damaged, missing or stale lockfile / generated file: whatever
+        # was there before, after generate every API succeeds
+        def regenerate():
+            return scen.subprocess.run([scen.MONORAIL, "-f", gen_path, "config", "generate"], cwd=repo.dir, input=src_bytes,
+                                       stdout=scen.subprocess.PIPE, stderr=scen.subprocess.PIPE)
+        ck = json.loads(lock_bytes)["checksum"]
+        histories = [
+            ("lockfile checksum digit edited", lambda: open(lock_path, "wb").write(json.dumps({"checksum": ("0" if ck[0] != "0" else "1") + ck[1:]}).encode())),
+            ("lockfile deleted", lambda: os.remove(lock_path)),
+            ("lockfile of another revision", lambda: open(lock_path, "wb").write(json.dumps({"checksum": "ab" * 32}).encode())),
+            ("generated file truncated", lambda: open(gen_path, "wb").write(gen_bytes[:len(gen_bytes) // 2])),
+            ("generated file and lockfile deleted", lambda: (os.remove(gen_path), os.remove(lock_path))),
+        ]
+        for name, damage in histories:
+            damage()
+            pr = regenerate()
+            rep.evaluations += 1
+            rep.count("regenerate_after_damage")
+            res = call_all(repo, gen_path) if pr.returncode == 0 else []
+            bad = [(api, rc, err[-200:]) for api, rc, j, err in res if rc != 0]
+            if pr.returncode != 0 or bad:
+                rep.oracle_fail({"kind": "APIs fail right after config generate", "case": case, "history": name + ", then config generate",
+                                 "generate_rc": pr.returncode, "generate_stderr": pr.stderr.decode("utf-8", "replace")[-200:], "failed": bad})
+                return
         rep.sample(case)
     finally:
         repo.done()
@@ -228,7 +252,9 @@ def serialisations(cfg, rng):
            ("shuffled_compact", json.dumps(shuffle_keys(cfg, rng), separators=(",", ":"), ensure_ascii=False)),
            ("leading_newline", "\n" + compact), ("leading_spaces", "   \t " + compact), ("crlf", json.dumps(cfg, indent=2, ensure_ascii=False).replace("\n", "\r\n")),
            ("trailing_20k", compact + " " * 20000 + "\n"), ("leading_200k", " " * 200000 + compact),
-           ("inner_pad_9k", compact.replace("{", "{" + " " * 9000, 1))]
+           ("inner_pad_9k", compact.replace("{", "{" + " " * 9000, 1)),
+           ("inner_pad_70k", compact.replace("{", "{" + " " * 70000, 1)), ("newlines_300k", compact.replace(",", "," + "\n" * 40, 1) + "\n" * 300000),
+           ("escaped_strings", compact.replace('"git"', '"g\\u0069t"').replace('"targets"', '"t\\u0061rgets"').replace('"path"', '"p\\u0061th"'))]
     # put a multi-byte character across the 8 KiB and 16 KiB marks: sweep the padding
     b = compact.encode()
     first = next((i for i, c in enumerate(b) if c >= 0x80), None)
@@ -251,6 +277,7 @@ def c18_case(seed, model, rep):
         cfg = dict(repo.cfg)
         cfg["max_retained_runs"] = 4
         cfg["sequences"] = {"dev": ["build", "test"]}
+        cfg["change_provider"] = {"use": "git"}
         apis = [["config", "show"], ["analyze", "--target-groups"], ["target", "show", "-g"]]
         ref = None
         for name, text in serialisations(cfg, rng):
@@ -289,6 +316,46 @@ def c18_case(seed, model, rep):
                 rep.oracle_fail({"kind": "the output of an API depends on the serialisation of the configuration", "case": case,
                                  "serialisations": [ref[0], name]})
                 return
+        # the same history of runs, once under one serialisation throughout and once with the file
+        # re-serialised in the middle: everything the store APIs return must be the same
+        import storeobs
+        sers = serialisations(cfg, rng)
+        a, b = sers[0], rng.pick(sers[1:9])
+        twin = build_repo(targets)
+        try:
+            views = []
+            for r, switch in ((repo, False), (twin, True)):
+                c2 = dict(cfg)
+                c2["server"] = r.cfg["server"]
+                r.write_config(json.dumps(c2, separators=(",", ":"), ensure_ascii=False))
+                v = []
+                for step in range(4):
+                    if switch and step == 2:
+                        text = dict(serialisations(c2, scen.Rng(seed)))[b[0]]
+                        r.write_config(text)
+                    rc, j, out, err = r.mono("run", "-c", "build", "-t", targets[0]["path"])
+                    obs = storeobs.show_all(r, 4)
+                    ptr = None
+                    try:
+                        ptr = json.load(open(os.path.join(r.out_dir, "tracking", "run.json")))["id"]
+                    except (OSError, ValueError):
+                        pass
+                    v.append({"rc": rc, "pointer": ptr, "dirs": obs["dirs"],
+                              "result": json.loads(json.dumps(obs["result"]).replace(r.dir, "<ROOT>")),
+                              "logs": {str(k): x.hex() for k, x in (obs["logs"] or {}).items()},
+                              "by_id": {str(i): (None if x is None else {str(k): y.hex() for k, y in x.items()}) for i, x in obs["by_id"].items()}})
+                views.append(v)
+            rep.evaluations += 1
+            rep.count("history_twins")
+            if views[0] != views[1]:
+                step = next(i for i in range(4) if views[0][i] != views[1][i])
+                rep.oracle_fail({"kind": "re-serialising the configuration in the middle of a history changed what the store APIs return",
+                                 "case": case, "serialisation": b[0], "first_difference_after_run": step + 1,
+                                 "control": {k: views[0][step][k] for k in ("rc", "pointer", "dirs")},
+                                 "reserialised": {k: views[1][step][k] for k in ("rc", "pointer", "dirs")}})
+                return
+        finally:
+            twin.done()
         rep.sample(case)
     finally:
         repo.done()
@@ -309,8 +376,7 @@ def main():
     n = {"C17": (40, 4), "C18": (40, 6)}[prop][0 if args["tier"] == "thorough" else 1] * args["budget"]
     seeds += [rng.next() for _ in range(n)]
     fn = c17_case if prop == "C17" else c18_case
-    with ThreadPoolExecutor(max_workers=8) as ex:
-        list(ex.map(lambda s: fn(s, model, rep), seeds))
+    scen.run_cases(lambda s: fn(s, model, rep), seeds, rep, 8)
     scen.finish(args, rep, t0, model)
 
 
